@@ -57,7 +57,7 @@ var c16BadTexts = []string{"rule \"n0\" begin", "rule \"n1\" \"d\" salience 1 be
 func init() {
 	register(&Prop{
 		ID:   "C16",
-		Rule: "operation histories of up to 20 steps on one pool (sizes (1,2),(1,3),(2,3),(2,4),(3,6)): UpdatePooledRules, UpdatePooledRulesIncremental, RemoveRules (present, absent, empty list), ClearPoolRules, SetExecModel (valid and invalid), re-submission of the byte-identical text of the last full or last incremental update, invalid texts for both update kinds, interleaved with single executions and with probe-all executions (max requests parked simultaneously on Hold gates, which forces one request onto every instance, initial and additional); oracle = model (rule map, execution model, cleared flag): after every step IsExist / GetRulesNumber / GetRuleSalience / GetRuleDesc / GetExecModel agree with the model, every execution and every probe result equals the model's rule set with the current tags (validated against the reference scheduling model of the configured execution model), a cleared pool runs nothing and returns an empty map, updates after clear bring it back, no step panics. Non-trivial: the history contains clear -> incremental, or remove -> incremental, or an update followed by a probe-all on a pool with max >= 3; distinct by case hash",
+		Rule: "operation histories of up to 20 steps on one pool (sizes (1,2),(1,3),(2,3),(2,4),(3,6)): UpdatePooledRules, UpdatePooledRulesIncremental, RemoveRules (present, absent, repeated names, empty list), ClearPoolRules, SetExecModel (valid and invalid), re-submission of the byte-identical text of the last full or last incremental update, invalid texts for both update kinds, interleaved with single executions and with probe-all executions (max requests parked simultaneously on Hold gates, which forces one request onto every instance, initial and additional); oracle = model (rule map, execution model, cleared flag): after every step IsExist / GetRulesNumber / GetRuleSalience / GetRuleDesc / GetExecModel agree with the model, every execution and every probe result equals the model's rule set with the current tags (validated against the reference scheduling model of the configured execution model), a cleared pool runs nothing and returns an empty map, updates after clear bring it back, no step panics; a second pool built from the same initial text is unaffected by the whole history. Non-trivial: the history contains clear -> incremental, or remove -> incremental, or an update followed by a probe-all on a pool with max >= 3; distinct by case hash",
 		New:  func() interface{} { return &C16Case{} },
 		Gen: func(t *rapid.T) interface{} {
 			c := &C16Case{}
@@ -86,7 +86,14 @@ func init() {
 				case k <= 8:
 					nr := uni(t, pfx+"nrem", 0, 4)
 					perm := rapid.Permutation(c08Universe).Draw(t, pfx+"rem")
-					c.Ops = append(c.Ops, C16Op{Kind: "remove", Remove: perm[:nr]})
+					rem := append([]string{}, perm[:nr]...)
+					if nr > 0 && pct(t, pfx+"remdup", 30) {
+						// the same name more than once in one removal list
+						for k, n := 0, uni(t, pfx+"ndup", 1, 2); k < n; k++ {
+							rem = append(rem, rem[uni(t, fmt.Sprintf("%sdup%d", pfx, k), 0, nr-1)])
+						}
+					}
+					c.Ops = append(c.Ops, C16Op{Kind: "remove", Remove: rem})
 				case k <= 10:
 					c.Ops = append(c.Ops, C16Op{Kind: "clear"})
 				case k == 11:
@@ -137,6 +144,65 @@ func checkC16(ci interface{}, x *Ctx) {
 		x.Violation("setup", "NewGenginePool rejected a valid text: %v", err)
 		return
 	}
+	// a second pool built from the very same text: nothing done to the first may show in it
+	twin, terr := engine.NewGenginePool(c.PoolMin, c.PoolMax, c.EM, text0, newSchedEnv().apis()) // its own observers
+	if terr != nil {
+		x.Violation("setup", "NewGenginePool rejected a valid text: %v", terr)
+		return
+	}
+	// the second pool is queried and executed by another goroutine while the history runs
+	twinStop, twinDone := make(chan struct{}), make(chan struct{})
+	go func() {
+		defer close(twinDone)
+		defer func() { recover() }()
+		for {
+			select {
+			case <-twinStop:
+				return
+			default:
+			}
+			twin.GetRulesNumber()
+			twin.IsExist(c08Universe)
+			twin.Execute(map[string]interface{}{"stag": &engine.Stag{}}, true)
+			time.Sleep(300 * time.Microsecond)
+		}
+	}()
+	defer func() {
+		close(twinStop)
+		select {
+		case <-twinDone:
+		case <-time.After(hangBound()):
+		}
+		if x.Failed() {
+			return
+		}
+		_, pan := guard(func() error {
+			ex := twin.IsExist(c08Universe)
+			n := 0
+			for i, name := range c08Universe {
+				want := false
+				for _, r := range c.Init {
+					if r.Name == name {
+						want = true
+					}
+				}
+				if want {
+					n++
+				}
+				if ex[i] != want {
+					x.Violation("twin-pool-changed", "a second pool built from the same text reports IsExist(%q)=%v after the history on the first pool, want %v\nhistory %s", name, ex[i], want, jsonStr(c.Ops))
+					return nil
+				}
+			}
+			if got := twin.GetRulesNumber(); got != n {
+				x.Violation("twin-pool-changed", "a second pool built from the same text reports %d rules after the history on the first pool, want %d\nhistory %s", got, n, jsonStr(c.Ops))
+			}
+			return nil
+		})
+		if pan != "" {
+			x.Violation("panic:twin-pool", "queries on the second pool panicked: %s", truncate(pan, 200))
+		}
+	}()
 	tg := &schedTarget{pool: p, env: env}
 	model := map[string]c08Entry{}
 	for _, r := range c.Init {
